@@ -137,6 +137,44 @@ def job_integer(vec):
     return problems
 
 
+def long_decimals(report):
+    """
+    Decimal cells with more digits than the model holds (TLC's integers have 32 bits): 29 to 40 significant digits, at and
+    just beyond the limits of a rule. The oracle is the property itself, evaluated with exact arithmetic: the cell is
+    accepted iff the number it denotes lies inside the rule, and the value returned is that number, digit for digit.
+    """
+    from cutplace import errors
+    cases = []
+    for rule, lower, upper in (("0...1", decimal.Decimal(0), decimal.Decimal(1)), ("-5.5...5.5", decimal.Decimal("-5.5"), decimal.Decimal("5.5")),
+                               ("", None, None)):
+        texts = ["0." + "1234567890" * 3, "0." + "9" * 35, "1." + "0" * 28 + "1", "1." + "0" * 38, "5.5" + "0" * 30 + "1",
+                 "-5.5" + "0" * 27 + "1", "5.4" + "9" * 33, "-0." + "0" * 30 + "1", "0." + "0" * 35 + "1", "123456789." + "123456789" * 3]
+        for text in texts:
+            value = decimal.Decimal(text)
+            if lower is None:
+                continue_default = abs(value) < decimal.Decimal(10) ** 19  # (documented default range: 19 digits before the point)
+                cases.append((rule, text, continue_default, value))
+            else:
+                cases.append((rule, text, lower <= value <= upper, value))
+    for fmt in ("delimited", "fixed"):
+        for rule, text, inside, value in cases:
+            field, failure = declare("DecimalFieldFormat", "f", False, str(len(text)) if fmt == "fixed" else "", rule, data_format(fmt))
+            report.replayed += 1
+            if field is None:
+                report.violation("c02", {"long_decimal": text, "rule": rule}, None, failure, "Decimal field with rule %r cannot be declared: %s" % (rule, failure[1]))
+                continue
+            outcome = validated(field, text)
+            what = "Decimal field (format %s, rule %r): cell %r (%d significant digits)" % (fmt, rule, text, len(value.as_tuple().digits))
+            if outcome[0] == "crash":
+                report.violation("c02", {"long_decimal": text, "rule": rule}, None, outcome[1], "%s: %s" % (what, outcome[1]))
+            elif (outcome[0] == "accept") != inside:
+                report.violation("c02", {"long_decimal": text, "rule": rule}, inside, outcome[0],
+                                 "%s is %sed but the number it denotes lies %s the rule" % (what, outcome[0], "inside" if inside else "outside"))
+            elif outcome[0] == "accept" and (outcome[1] != value or str(outcome[1].normalize()) != str(value.normalize())):
+                report.violation("c02", {"long_decimal": text, "rule": rule}, str(value), str(outcome[1]),
+                                 "%s yields %s, which is not the number the text denotes" % (what, outcome[1]))
+
+
 def sweep_integers(report):
     """Thorough: every length declaration of the model x every integer of up to 6 characters."""
     from cutplace import errors
@@ -407,6 +445,7 @@ def run(tier, report):
                 report.violations.append({"what": problem})
     if tier == "thorough":
         sweep_integers(report)
+    long_decimals(report)
     if not report.violations:
         for family, vec in jobs:
             if family == "decimal" and vec["expected"][0] == "accept":
